@@ -3,6 +3,9 @@ import ClipVerif.Proofs.Tree
 import ClipVerif.Proofs.PIPOp
 import ClipVerif.Model.Tree
 import ClipVerif.Model.PIPOp
+import ClipVerif.Model.Contain
+import ClipVerif.Proofs.Contain
+import ClipVerif.Proofs.PIP
 import ClipVerif.Model.Conv
 import ClipVerif.Spec.Wind
 /-
@@ -78,5 +81,85 @@ theorem pointInOpPolygon_degenerate (pt : Point64) (ring : List Point64)
     Model.pointInOpPolygon pt ring = 2 := by
   exact Proofs.PIPOp.pointInOpPolygon_degenerate pt ring h
 
+
+
+/-! ### The containment vote (`path1InsidePath2`, `Path2ContainsPath1`, `getCleanPath`; model
+`Model.Contain`, tied by `models-corr contain`).  `buildTree_parent_contains` above takes the
+containment relation as a parameter; these theorems say what the real test answers. -/
+
+/-- the point as the specification sees it -/
+def qOf (p : Point64) : QPt := ⟨(p.X.toInt : Rat), (p.Y.toInt : Rat)⟩
+
+/-- strictly inside / strictly outside a ring, by the exact winding number (even-odd, as both point tests use it) -/
+def StrictIn (ring : List Point64) (p : Point64) : Bool :=
+  !Spec.onPath (pathToI ring) (qOf p) && decide (Spec.wind (pathToI ring) (qOf p) % 2 ≠ 0)
+def StrictOut (ring : List Point64) (p : Point64) : Bool :=
+  !Spec.onPath (pathToI ring) (qOf p) && decide (Spec.wind (pathToI ring) (qOf p) % 2 = 0)
+
+/-- the vote alone: no IsOutside verdict and two IsInside verdicts ⇒ true; the mirror image ⇒ false;
+    whatever the order and however many IsOn verdicts lie between -/
+theorem vote_inside (cs : List Nat) (hno : ∀ c ∈ cs, c ≠ 2) (h2 : 2 ≤ cs.count 1) :
+    Model.vote 0 cs = .inl true := by
+  exact Proofs.Contain.vote_inside cs hno h2
+
+theorem vote_outside (cs : List Nat) (hno : ∀ c ∈ cs, c ≠ 1) (h2 : 2 ≤ cs.count 2) :
+    Model.vote 0 cs = .inl false := by
+  exact Proofs.Contain.vote_outside cs hno h2
+
+/-- rings that do not cross: if no vertex of ring1 is strictly outside ring2 and two are strictly
+    inside, `path1InsidePath2` answers true (ring2 within the coordinate domain, ≥ 3 vertices, not flat) -/
+theorem path1InsidePath2_sound_inside (ring1 ring2 : List Point64)
+    (hr1 : ∀ q ∈ ring1, q.inRange) (hr2 : ∀ q ∈ ring2, q.inRange) (h3 : 3 ≤ ring2.length)
+    (hY : ∃ a ∈ ring2, ∃ b ∈ ring2, a.Y ≠ b.Y)
+    (hno : ∀ p ∈ ring1, StrictOut ring2 p = false)
+    (h2 : 2 ≤ ring1.countP (StrictIn ring2)) :
+    Model.path1InsidePath2 ring1 ring2 = true := by
+  exact Proofs.Contain.path1InsidePath2_sound_inside ring1 ring2 hr1 hr2 h3 hY hno h2
+
+theorem path1InsidePath2_sound_outside (ring1 ring2 : List Point64)
+    (hr1 : ∀ q ∈ ring1, q.inRange) (hr2 : ∀ q ∈ ring2, q.inRange) (h3 : 3 ≤ ring2.length)
+    (hY : ∃ a ∈ ring2, ∃ b ∈ ring2, a.Y ≠ b.Y)
+    (hno : ∀ p ∈ ring1, StrictIn ring2 p = false)
+    (h2 : 2 ≤ ring1.countP (StrictOut ring2)) :
+    Model.path1InsidePath2 ring1 ring2 = false := by
+  exact Proofs.Contain.path1InsidePath2_sound_outside ring1 ring2 hr1 hr2 h3 hY hno h2
+
+/-- the exported `Path2ContainsPath1`, same statements -/
+theorem path2ContainsPath1_sound_inside (path1 path2 : List Point64)
+    (hr1 : ∀ q ∈ path1, q.inRange) (hr2 : ∀ q ∈ path2, q.inRange) (h3 : 3 ≤ path2.length)
+    (hY : ∃ a ∈ path2, ∃ b ∈ path2, a.Y ≠ b.Y)
+    (hno : ∀ p ∈ path1, StrictOut path2 p = false)
+    (h2 : 2 ≤ path1.countP (StrictIn path2)) :
+    Model.path2ContainsPath1 path1 path2 = true := by
+  exact Proofs.Contain.path2ContainsPath1_sound_inside path1 path2 hr1 hr2 h3 hY hno h2
+
+theorem path2ContainsPath1_sound_outside (path1 path2 : List Point64)
+    (hr1 : ∀ q ∈ path1, q.inRange) (hr2 : ∀ q ∈ path2, q.inRange) (h3 : 3 ≤ path2.length)
+    (hY : ∃ a ∈ path2, ∃ b ∈ path2, a.Y ≠ b.Y)
+    (hno : ∀ p ∈ path1, StrictIn path2 p = false)
+    (h2 : 2 ≤ path1.countP (StrictOut path2)) :
+    Model.path2ContainsPath1 path1 path2 = false := by
+  exact Proofs.Contain.path2ContainsPath1_sound_outside path1 path2 hr1 hr2 h3 hY hno h2
+
+/-- when every vertex of path1 lies on path2 (polygons sharing their boundary), the mid-point of
+    path1's bounds decides, and a mid-point on the boundary counts as contained -/
+theorem path2ContainsPath1_all_on (path1 path2 : List Point64)
+    (hon : ∀ p ∈ path1, Model.pointInPolygon p path2.toArray = 0) :
+    Model.path2ContainsPath1 path1 path2 =
+      (Model.pointInPolygon (Rect64_MidPoint (getBounds path1)) path2.toArray != 2) := by
+  exact Proofs.Contain.path2ContainsPath1_all_on path1 path2 hon
+
+/-- `getCleanPath` only drops vertices: the result is a sub-list of the ring, not empty for a
+    non-empty ring, and starts at the first vertex it did not skip -/
+theorem getCleanPath_sublist (ring : List Point64) : (Model.getCleanPath ring).Sublist ring := by
+  exact Proofs.Contain.getCleanPath_sublist ring
+
+theorem getCleanPath_ne_nil (ring : List Point64) (h : ring ≠ []) : Model.getCleanPath ring ≠ [] := by
+  exact Proofs.Contain.getCleanPath_ne_nil ring h
+
+/-- non-vacuity: a unit-10 square contains the triangle (2,2) (8,2) (5,7) and not the shifted one -/
+example : Model.path1InsidePath2 [⟨2, 2⟩, ⟨8, 2⟩, ⟨5, 7⟩] [⟨0, 0⟩, ⟨10, 0⟩, ⟨10, 10⟩, ⟨0, 10⟩] = true ∧
+    Model.path1InsidePath2 [⟨22, 2⟩, ⟨28, 2⟩, ⟨25, 7⟩] [⟨0, 0⟩, ⟨10, 0⟩, ⟨10, 10⟩, ⟨0, 10⟩] = false := by
+  decide
 
 end C04
